@@ -24,7 +24,7 @@ it; the thorough tier / `vcheck selftest` replays all of them on scratch copies.
 Result: **{n} changes, {n - len(init_miss)} caught by the checks as they were, {len(init_miss)} initially missed**.
 Each miss was analysed: where a structural necessary condition exists that is visible in
 the code and does not fire on behaviour-preserving edits, a rule was added (listed in
-5.1) and the change now fires; **{len(still)} remain documented misses** because the broken
+5.1) and the change now fires; **{len(still)} remain(s) a documented miss** because the broken
 clause is arithmetic (no rule short of executing the code separates them from valid
 optimisations):
 
